@@ -571,7 +571,19 @@ CLAIMED['C05'] = dict(
          "closed under the global context; hypotheses shown satisfiable on a concrete workbook. Oracle-only (not "
          "modelled): unbounded row/column ranges clipped to the used area, address lists/tuples/generators and "
          "sheet-less addresses — checked on the implementation for all permutations of first-evaluation order of "
-         "workbooks of 4-6 cells and every enclosing range; the extracted machine is compared on the first orders.",
+         "workbooks of 4-6 cells and every enclosing range; the extracted machine is compared on the first orders. "
+         "Also oracle-only (reference = the cell evaluated alone by a fresh compiler; CSE arrays, tables, "
+         "reference-returning formulas and the reference cell of an unbounded range are not in the machine): "
+         "CSE array formulas whose precedents are ordinary cells calling the array-aware functions "
+         "IFERROR/IFNA/IFS on ranges (every cell / array member / exact array / enclosing block / D:D / 1:1 first, "
+         "plus random permutations); 2-3 sheets with tables at coinciding coordinates and unqualified structured "
+         "references ([@col], [col], [[#This Row],[col]], [[#Data],[col]], [[a]:[b]]), values also recomputed "
+         "from the sheet's own table; cells whose whole formula returns a reference (OFFSET/INDIRECT, chained) to "
+         "not-yet-evaluated formula cells (repair 9ccb2f4); sub-rectangles and unbounded rows/columns around and "
+         "across CSE arrays of an in-memory workbook (known finding C05-range-overlapping-cse-array for ranges "
+         "starting inside an array); SUM/COUNT/MIN/MAX of A:A, B:B, A:B, r:r, 1:n with set_value on members, "
+         "every first-evaluation order of the formulas, each value equal to a from-scratch compile (repair "
+         "347fec5).",
     design_ref="DESIGN.md 5 C05",
 )
 
